@@ -39,6 +39,25 @@ def corpus(g, rng, tier):
     for t in ("2b/9/a/L5", "13/-/9/-;2b/9/a/L5", "2b/9/a/L5;15/-/9/L20,L1", "16/-/9/L20,E%d.7fffffff;2b/9/a/L3f800000" % g.kidx["FPEncoding"]):
         words = sg.header_words() + [w for x in t.split(";") for w in sg.spec_encode(x)]
         yield "constant with unusual type context", b"".join(w.to_bytes(4, "little") for w in words)
+    # one-word constants whose (signed / unsigned / float, 8..128 bit) type is declared AFTER them: the
+    # disassembler tracks all types up front, the parser had not seen the type yet
+    for w in (8, 16, 24, 32, 64, 128):
+        for decl in ("15/-/9/L%x,L1" % w, "15/-/9/L%x,L0" % w, "16/-/9/L%x" % w):
+            for lit in ("L7", "Lffffffff", "L80000000"):
+                words = sg.header_words() + [x for t in ("2b/9/a/" + lit, decl) for x in sg.spec_encode(t)]
+                yield "one-word constant before its %d-bit type" % w, b"".join(x.to_bytes(4, "little") for x in words)
+    # files cut inside instructions with string operands, with a 1-3 byte tail: a string's NUL may fall
+    # into the trailing partial word
+    dec = dict(g.enums["Decoration"]["variants"])
+    strs = ["47/-/-/R1,E%d.%x,S61,S62" % (g.kidx["Decoration"], dec.get("MergeINTEL", 5834)),
+            "3/-/-/E%d.2,L1c2,R5,S6162636465" % g.kidx["SourceLanguage"],
+            "f/-/-/E%d.0,R4,S6d61696e,R9" % g.kidx["ExecutionModel"], "7/-/3/S616263"]
+    for t in strs:
+        ws = sg.header_words() + sg.spec_encode(t)
+        data = b"".join(x.to_bytes(4, "little") for x in ws)
+        for cut in range(24, len(data) + 1, 4):
+            for tail in (b"", b"\0", b"b\0", b"bc\0", b"b", b"bc", b"bcd", b"\0\0\0"):
+                yield "string instruction cut at byte %d + %d byte tail" % (cut, len(tail)), data[:cut] + tail
     for e in g.core[::7]:
         words = sg.header_words() + [(5 << 16) | 52, 1, 2, g.opnum[e["name"]], 7]
         yield "OpSpecConstantOp embedding Op%s" % e["name"], b"".join(w.to_bytes(4, "little") for w in words)
